@@ -26,6 +26,19 @@ TU = "scriptplan/_cython/time_utils_cy.pyx"
 MP = "scriptplan/parser/macro_processor.py"
 
 MUTANTS = [
+    # ------------------------------------------------------------------ reverts of repaired defects F61 (C13), F62 (C11)
+    ("c13_fallback_uses_unimported_math", "C13", [(PJ, "from datetime import timedelta\nimport math\n", "from datetime import timedelta\n")]),
+    ("c11_timing_resolution_zero_accepted", "C11", [(TP, "            if seconds <= 0:\n                raise ValueError(f\"timingresolution must be a positive duration, not '{duration}'\")\n", "")]),
+    # ------------------------------------------------------------------ round 3: divisors, completeness must-facts, horizon as a date, interval loops
+    ("c11_declared_efficiency_divides", "C11", [(TS, "        efficiency = resource.get(\"efficiency\", self.scenarioIdx) or 1.0\n\n        # Calculate required duration", "        efficiency = resource.get(\"efficiency\", self.scenarioIdx)\n        if efficiency is None:\n            efficiency = 1.0\n\n        # Calculate required duration")]),
+    ("c10_flag_checked_for_leaves_only", "C10", [(TS, "            if not child.get(\"scheduled\", self.scenarioIdx):\n                return", "            if child.leaf() and not child.get(\"scheduled\", self.scenarioIdx):\n                return")]),
+    ("c10_all_children_filtered", "C10", [(PJ, "all(child.get(\"scheduled\", scIdx) for child in children)", "all(child.get(\"scheduled\", scIdx) for child in children if child.leaf())")]),
+    ("c09_root_bounded_by_horizon", "C09", [(PJ, "propagate_end_to_children(task, task.get(\"end\", scIdx))", "propagate_end_to_children(task, task.get(\"end\", scIdx) or self[\"end\"])")]),
+    ("c08_global_leave_one_slot_more", "C08", [(RS, "                    end_idx = self.project.dateToIdx(leave.interval.end)\n                    for i in range(max(start_idx, 0), min(end_idx, size)):\n                        sb = self.scoreboard[i]\n                        val =", "                    end_idx = self.project.dateToIdx(leave.interval.end) + 1\n                    for i in range(max(start_idx, 0), min(end_idx, size)):\n                        sb = self.scoreboard[i]\n                        val =")]),
+    ("c02_own_leave_starts_one_slot_late", "C02", [(RS, "                    start_idx = self.project.dateToIdx(leave.interval.start)\n                    end_idx = self.project.dateToIdx(leave.interval.end)\n                    for i in range(max(start_idx, 0), min(end_idx, size)):\n                        sb = self.scoreboard[i]\n                        if sb is not None:", "                    start_idx = self.project.dateToIdx(leave.interval.start) + 1\n                    end_idx = self.project.dateToIdx(leave.interval.end)\n                    for i in range(max(start_idx, 0), min(end_idx, size)):\n                        sb = self.scoreboard[i]\n                        if sb is not None:")]),
+    ("c03_unbooked_slot_credited_whole", "C03", [(RS, "        available_seconds = self.getAvailableSecondsInSlot(sb_idx)\n        efficiency", "        available_seconds = self.getAvailableSecondsInSlot(sb_idx) if self.scoreboard[sb_idx] is not None else float(self.project.attributes.get(\"scheduleGranularity\", 3600))\n        efficiency")]),
+    ("c01_prepare_clears_ledger_via_init", "C01", [(RS, "        self.scoreboard = Scoreboard(start, end, granularity, 2)\n        size = self.project.scoreboardSize()\n", "        self.scoreboard = Scoreboard(start, end, granularity, 2)\n        size = self.project.scoreboardSize()\n        self.slotSecondsUsed = {}\n        self.slotTaskUsage = {}\n")]),
+    ("c16_limits_chain_kept_on_task", "C16", [(TS, "        all_limits = []\n        task: Optional[Any] = self.property\n        while task is not None:\n            limits = task.get(\"limits\", self.scenarioIdx)\n            if limits:\n                all_limits.append(limits)\n            task = task.parent\n        return all_limits", "        all_limits = getattr(self.property, \"_limitsChain\", None)\n        if all_limits is not None:\n            return all_limits\n        all_limits = []\n        task: Optional[Any] = self.property\n        while task is not None:\n            limits = task.get(\"limits\", self.scenarioIdx)\n            if limits:\n                all_limits.append(limits)\n            task = task.parent\n        self.property._limitsChain = all_limits\n        return all_limits")]),
     # ------------------------------------------------------------------ revert of repaired defect F60 (C06)
     ("c06_alap_milestone_slot_start", "C06", [(TS, "                    date = self.backwardBound or self.project.idxToDate(slot_idx)", "                    date = self.project.idxToDate(slot_idx)")]),
     # ------------------------------------------------------------------ revert of repaired defect F59 (C19)
@@ -245,6 +258,12 @@ UNDECIDED = [
 
 # behaviour-preserving edits: the checks named must stay silent
 BENIGN = [
+    # ------------------------------------------------------------------ round 3
+    ("b_limits_chain_kept_per_scenario", ["C16", "C05", "C07", "C12"], [(TS, "        all_limits = []\n        task: Optional[Any] = self.property\n        while task is not None:\n            limits = task.get(\"limits\", self.scenarioIdx)\n            if limits:\n                all_limits.append(limits)\n            task = task.parent\n        return all_limits", "        all_limits = getattr(self, \"_limitsChain\", None)\n        if all_limits is not None:\n            return all_limits\n        all_limits = []\n        task: Optional[Any] = self.property\n        while task is not None:\n            limits = task.get(\"limits\", self.scenarioIdx)\n            if limits:\n                all_limits.append(limits)\n            task = task.parent\n        self._limitsChain = all_limits\n        return all_limits")]),
+    ("b_zero_efficiency_repaired_by_if", ["C11"], [(TS, "        efficiency = resource.get(\"efficiency\", self.scenarioIdx) or 1.0\n\n        # Calculate required duration", "        efficiency = resource.get(\"efficiency\", self.scenarioIdx)\n        if not efficiency:\n            efficiency = 1.0\n\n        # Calculate required duration")]),
+    ("b_leave_loop_bounds_named", ["C02", "C08"], [(RS, "                    for i in range(max(start_idx, 0), min(end_idx, size)):\n                        sb = self.scoreboard[i]\n                        val =", "                    lo = max(start_idx, 0)\n                    hi = min(end_idx, size)\n                    for i in range(lo, hi):\n                        sb = self.scoreboard[i]\n                        val =")]),
+    ("b_abort_test_with_extra_disjunct", ["C10"], [(TS, "            if not child.get(\"scheduled\", self.scenarioIdx):\n                return", "            if not child.get(\"scheduled\", self.scenarioIdx) or child_scenario.isRunAway:\n                return")]),
+    ("b_root_end_named", ["C09"], [(PJ, "                propagate_end_to_children(task, task.get(\"end\", scIdx))", "                own_end = task.get(\"end\", scIdx)\n                propagate_end_to_children(task, own_end)")]),
     ("b_rollup_named_reversed_list", ["C10", "C07"], [(PJ, "        for task in reversed(list(self.tasks)):\n            if task.leaf():\n                continue  # Skip leaf tasks", "        bottom_up = list(self.tasks)\n        bottom_up.reverse()\n        for task in bottom_up:\n            if task.leaf():\n                continue  # Skip leaf tasks")]),
     ("b_floor_division_instead_of_math_floor", ["C13", "C17"], [(SB, "        idx = math.floor(diff / self.resolution)", "        idx = int(diff // self.resolution)")]),
     ("b_priority_range_guard_inclusive", ["C09"], [(TP, "                elif key == \"priority\":\n                    # Set for all scenarios\n", "                elif key == \"priority\":\n                    if not 1 <= value <= 1000:\n                        continue\n                    # Set for all scenarios\n")]),
@@ -255,7 +274,7 @@ BENIGN = [
     ("b_comment_stripper_via_local", ["C15", "C11"], [(MP, "        content = strip_comments(content)\n", "        without_comments = strip_comments(content)\n        content = without_comments\n")]),
     ("b_offset_cleared_before_step", ["C07", "C08"], [(TS, "            self.currentSlotIdx += delta\n            # The mid-slot offset of the dependency bound belongs to the slot the walk began in\n            self.slotStartOffset = 0.0\n",
                                                         "            # The mid-slot offset of the dependency bound belongs to the slot the walk began in\n            self.slotStartOffset = 0.0\n            self.currentSlotIdx += delta\n")]),
-    ("b_sound_memo_of_pure_conversion", ["C02", "C08", "C12", "C16"], [
+    ("b_sound_memo_of_pure_conversion", ["C01", "C02", "C03", "C04", "C05", "C06", "C07", "C08", "C09", "C10", "C12", "C14", "C16"], [
         (WH, "class WorkingHours:\n", "_LOCAL_TIMES: dict = {}\n\n\nclass WorkingHours:\n"),
         (WH, "                utc_dt = dt.replace(tzinfo=dt_timezone.utc)\n                tz = zoneinfo.ZoneInfo(timezone_str)\n                return utc_dt.astimezone(tz)",
              "                key = (timezone_str, dt)\n                if key not in _LOCAL_TIMES:\n                    utc_dt = dt.replace(tzinfo=dt_timezone.utc)\n                    _LOCAL_TIMES[key] = utc_dt.astimezone(zoneinfo.ZoneInfo(timezone_str))\n                return _LOCAL_TIMES[key]")]),
